@@ -402,6 +402,13 @@ where
             .into()),
         }
     }
+
+    #[inline]
+    fn minimum_bytes_needed() -> usize {
+        // the variant tag plus the smallest variant (`Empty` without a timestamp):
+        // lets the reader reject a list length that cannot fit in the frame
+        2
+    }
 }
 
 impl<C> Writable<C> for SyncNeedV1
